@@ -10,7 +10,7 @@ for sid in sys.argv[2:]:
     meta = {"seed": sid, "property": sid.split("-")[0], "round": rnd, "files": files,
             "produced_by": f"independent sub-agent (round {rnd}) given only the property text and its own worktree",
             "needs_to_manifest": "see notes.md (written by the sub-agent)",
-            "confirmed": {"how": "tools/confirm_seed.sh in a scratch worktree of /repo HEAD e75e5a0: git apply patch; cargo test --offline -p <crate> (existing tests pass); apply demo.diff; the demo test fails with the patch and passes without it",
+            "confirmed": {"how": "tools/confirm_seed.sh in a scratch worktree of /repo HEAD: git apply patch; cargo test --offline -p <crate> (existing tests pass); apply demo.diff; the demo test fails with the patch and passes without it",
                           "log": "confirm.log", "all_four_checks_passed": ok}}
     json.dump(meta, open(f"{d}/meta.json", "w"), indent=1)
     print(sid, "confirmed" if ok else "NOT CONFIRMED")
